@@ -172,7 +172,7 @@ def gen_plan(run_seed, idx, tier):
     rng = Rng(run_seed)
     fault_free = (idx % 4 == 3)
     ep = rng.choice([1000, 70000, 1_700_000_000, 2 ** 31 - 100000, 2 ** 31 - 50, 2 ** 31 + 5,
-                     2 ** 32 - 200000, 2 ** 32 - 50, 2 ** 32 + 5, 2 ** 40])
+                     2 ** 32 - 200000, 2 ** 32 - 50, 2 ** 32 + 5, 2 ** 37])
     regime = 'integer' if fault_free else rng.choice(['integer', 'fractional'])
 
     def clk():
